@@ -7,11 +7,11 @@ CONSTANTS
   Prod = {p1, p2}
   Cons = {c1, c2}
   Cap = 2
-  NSend <- S11
-  NRecv <- R11
-  TwoStep = TRUE
+  NSend <- S21
+  NRecv <- R21
+  TwoStep = FALSE
   PhotonSend = TRUE
   Timed = TRUE
-  Bug = "late_idler"
-SYMMETRY Sym
+  Bug = "none"
+
 INVARIANTS NotStuckNonEmpty NotStuckNonFull PendingMirrorsCount CountersSane Ledger
